@@ -119,7 +119,8 @@ RearrFamily(z) ==
     \cup {R1("squeeze", "func", s, AxInt(a), 0, 0, <<>>, "-") : a \in {b \in AxisInts(Len(s)) : s[NormAxis(b, Len(s)) + 1] = 1}}
     \cup {R1("reshape", f, s, NoAx, 0, 0, t, o) : f \in {"func", "method", "method_tuple"}, t \in ReshapeTargets(Size(s)), o \in {"C", "F"}}
     \cup {R1("ravel", f, s, NoAx, 0, 0, <<>>, o) : f \in {"func", "method"}, o \in {"C", "F"}}
-    \cup {R1("flatten", "method", s, NoAx, 0, 0, <<>>, "-")}
+    \cup {R1("flatten", "method", s, NoAx, 0, 0, <<>>, o) : o \in {"-", "F", "Fpos"}}          \* x.flatten(), x.flatten(order="F"), x.flatten("F")
+    \cup {R1("ravel", "method", s, NoAx, 0, 0, <<>>, "Fpos")}                                   \* x.ravel("F")
     \* repetition
     \cup {R1("repeat", f, s, ax, r, 0, <<>>, "-") : f \in {"func", "method"}, r \in 1..3, ax \in {NoAx} \cup {AxInt(a) : a \in AxisInts(Len(s))}}
     \cup {R1("tile", "func", s, NoAx, 0, 0, t, "-") : t \in {<<2>>, <<1, 2>>, <<2, 1>>, <<2, 2>>, <<1, 1, 2>>, <<2, 1, 1, 1>>}}
@@ -302,7 +303,7 @@ IndexFamily(z) ==
 \* ---------------------------------------------------------------- linalg
 \* s = batch shape, ia = n (rows), ib = m (columns, 0 = square), st = variant, tp = extra ints, argnum as usual
 L1(prim, batch, n, m, argnum, st, tp, k) == Cfg(prim, "func", batch, <<>>, <<>>, argnum, NoAx, FALSE, n, m, tp, st, k, "array", NA)
-Batches == {<<>>, <<2>>} \cup (IF MaxRank >= 3 THEN {<<2, 1>>} ELSE {})
+Batches == {<<>>, <<2>>, <<1>>, <<3>>} \cup (IF MaxRank >= 3 THEN {<<2, 1>>} ELSE {})     \* (a stack as long as the matrices are wide: an axis mix-up keeps the shape)
 LinalgFamily(z) ==
   {L1(p, b, n, 0, 0, "-", <<>>, k) : p \in {"det", "slogdet", "inv", "pinv"}, b \in Batches, n \in 1..3, k \in Kinds \cap {"rr", "cc"}}
   \cup {L1("pinv", b, q[1], q[2], 0, "-", <<>>, "rr") : b \in Batches, q \in {<<2, 3>>, <<3, 2>>}}
